@@ -388,7 +388,9 @@ theorem leaf_fixedStr (size : Nat) (lenK : IntK) (v : PyVal) (h : Canon (.fixedS
   obtain ⟨d, hd, hdl, hdec⟩ := text_roundtrip .latin1 cs htxt
   simp only [charWidth, Nat.mul_one] at hdl
   refine ⟨leBytes lenK.size cs.length ++ d ++ zeros (size - cs.length), ?_, ?_, ?_, ?_⟩
-  · simp [encode, encodeFixedStr, hp, hd, bind, Except.bind]
+  · have ht : cs.take size = cs := List.take_of_length_le hsz
+    simp only [encode, encodeFixedStr, ht]
+    simp [hp, hd, bind, Except.bind]
   · intro rest
     have hlo : lenK.lo ≤ (cs.length : Int) := by simp [IntK.lo, hk]
     have hiv := decodeIntVal_pack lenK cs.length (d ++ zeros (size - cs.length) ++ rest) hlo hlen
